@@ -5,7 +5,7 @@
      [c |-> "CMD", s, we, a, last]  [c |-> "WDATA", s, d, m]  [c |-> "RDATA", s, d]
      [c |-> "WDROP", s |-> "m"]  data strobe of the pulse-semantics memory side with no word offered by the crossing
      [c |-> "RDROP", s |-> "m"]  read word offered by the pulse-semantics memory side while the crossing was not ready
-     [c |-> "DUMP", n]  [c |-> "END"]
+     [c |-> "DUMP", n]  [c |-> "END", planned]   (planned = number of commands the user driver had to issue)
      [c |-> "NEW", tid, nports |-> 1, uniq, memsem]   starts an independent execution (monitors reset)
    Requirement = R_Crossing (three streams: exactly once, in order, nothing left) + R_PortMem on the user port (memsem). *)
 EXTENDS TraceLib, R_PortMem, R_Crossing
@@ -43,7 +43,9 @@ TNext == /\ l <= NLines
                 leftover == IF e.c = "END" /\ early # <<>> THEN {<<"write data taken for a write command that was never accepted", Len(early)>>} ELSE {}
                 extra == CASE e.c = "WDROP" -> {<<"write word not at the crossing output when the memory side strobed it (late or lost)">>}
                            [] e.c = "RDROP" -> {<<"read word refused by the crossing (overflow): word lost">>}
-                           [] e.c = "END" -> StreamEnd(sr.s)
+                           [] e.c = "END" -> StreamEnd(sr.s) \cup
+                                  (IF "planned" \in DOMAIN e /\ e.planned > sr.s["cmd"].npush
+                                   THEN {<<"command offered on the user port but never accepted", e.planned - sr.s["cmd"].npush>>} ELSE {})
                            [] OTHER -> {}
             IN /\ cfg' = cfg /\ st' = sr.s /\ mem' = mr.s
                /\ early' = IF isEarly THEN Append(early, UserEv(e)) ELSE IF bindEarly THEN Tail(early) ELSE early
